@@ -448,7 +448,11 @@ type Endpoint struct {
 	rd     deadline
 	// WriteErr, if set, is returned by WriteTo (transport refusing writes).
 	WriteErr error
-	detached bool
+	// WriteFail[k] makes the k-th WriteTo call of this endpoint (counted from 0) fail with a transport error;
+	// nothing is emitted for it.
+	WriteFail map[int]bool
+	writeN    atomic.Int64
+	detached  bool
 }
 
 func (e *Endpoint) deliver(d dgram) {
@@ -507,6 +511,9 @@ func (e *Endpoint) WriteTo(p []byte, addr net.Addr) (int, error) {
 	}
 	if e.WriteErr != nil {
 		return 0, e.WriteErr
+	}
+	if k := int(e.writeN.Add(1)) - 1; e.WriteFail[k] {
+		return 0, errors.New("vnet: transport refused the datagram")
 	}
 	if e.isDetached() {
 		return len(p), nil // swallowed: the endpoint was spliced out of the network
